@@ -24,7 +24,16 @@ if "--worker" in sys.argv: worker = sys.argv[sys.argv.index("--worker") + 1]
 # one fixed copy per worker: its shadow target dir is reused, so only the patched crate and its
 # dependents are rebuilt from one trial to the next
 wt = Path(f"/tmp/wt-seed-w{worker}")
-subprocess.run(["rsync", "-a", "--delete", "--exclude", "target", "--exclude", ".git", "/repo/", str(wt) + "/"], check=True)
+rs = subprocess.run(["rsync", "-a", "-i", "--checksum", "--delete", "--exclude", "target", "--exclude", ".git", "/repo/", str(wt) + "/"],
+                    check=True, capture_output=True, text=True)
+# rsync -a restores the ORIGINAL (old) mtimes of files a previous trial had patched; cargo would then
+# consider the crate built from the patched source still fresh.  Give every file rsync rewrote a new
+# mtime so that its crate is rebuilt.
+for line in rs.stdout.splitlines():
+    if line.startswith(">f"):
+        f = wt / line.split(" ", 1)[1]
+        if f.exists():
+            os.utime(f, None)
 r = subprocess.run(["git", "apply", "--unsafe-paths", "--directory", str(wt), str(seed / "patch.diff")],
                    cwd="/", capture_output=True, text=True)
 if r.returncode != 0:
